@@ -851,6 +851,19 @@ def c04_case(seed):
   else:
     # a made predicate whose name sorts before / after the result it is built on
     makes = [('Zed', 'Fn', {'A1': b1}), ('Abe', 'Zed', {'A2': 'B2'})]
+  # optionally the functor carries @OrderBy/@Limit: every predicate made from it (also the second
+  # link of a chain, N3 := N1(...)) inherits the clauses
+  fn_rules = [r for r in base.rules if r.pred == 'Fn']
+  ann_fun, ann_of = [], None
+  if fn_rules and not fn_rules[0].nargs and rnd.random() < 0.4:
+    ncols = len(fn_rules[0].args)
+    keys = ', '.join('"col%d%s"' % (i, ' desc' if rnd.random() < 0.5 else '') for i in range(ncols))
+    lim = rnd.choice([1, 1, 2])
+    ann_of = lambda name: ['@OrderBy(%s, %s);' % (name, keys), '@Limit(%s, %d);' % (name, lim)]
+    ann_fun = ann_of('Fn')
+    notes_ann = '/limited'
+  else:
+    notes_ann = ''
   # program with := lines
   fun_rules = list(base.rules)
   made_lines = []
@@ -858,15 +871,30 @@ def c04_case(seed):
     made_lines.append('%s := %s(%s);' % (target, functor, ', '.join('%s: %s' % kv for kv in sorted(b.items()))))
   if rnd.random() < 0.5:
     made_lines.reverse()
-  fun_prog = Program(base.rules + extra_rules, [], gen.EXT)
+  fun_prog = Program(base.rules + extra_rules, ann_fun, gen.EXT)
   fun_text = fun_prog.text() + '\n'.join(made_lines) + '\n'
   # hand-substituted program: apply the makes in dependency order on the AST
   hand_rules = list(base.rules) + extra_rules
+  hand_ann = list(ann_fun)
+  limited = set(['Fn'])
   for target, functor, b in makes:
     cur = Program(hand_rules, [], gen.EXT)
-    hand_rules = hand_rules + hand_substitute(cur, target, functor, b)
-  hand_prog = Program(hand_rules, [], gen.EXT)
-  return base, fun_text, hand_prog, [m[0] for m in makes], '%s/%s' % (shape, kind)
+    new_rules = hand_substitute(cur, target, functor, b)
+    hand_rules = hand_rules + new_rules
+    if ann_of and functor in limited:
+      limited.add(target)
+      hand_ann += ann_of(target)
+    if ann_of:
+      # intermediate clones X_of_<target> of a limited X are limited as well
+      suffix = '_of_%s' % target
+      for name in sorted(set(r.pred for r in new_rules)):
+        if name.endswith(suffix) and name[:-len(suffix)] in limited and name not in limited:
+          limited.add(name)
+          hand_ann += ann_of(name)
+  hand_prog = Program(hand_rules, hand_ann, gen.EXT)
+  if ann_fun:
+    base = Program(base.rules, ann_fun, gen.EXT)
+  return base, fun_text, hand_prog, [m[0] for m in makes], '%s/%s%s' % (shape, kind, notes_ann)
 
 
 def c04_pairs(seed):
